@@ -156,12 +156,13 @@ CHECKS = {
     "C08": dict(
         text="Theorems (Coq): (a) all patterns and all newline-free path strings, no bound: the glob->regex converter always emits a regex of the modelled fragment that parses back to (leading star, literal text, trailing star), "
              "and convert+re.match equals the documented four-case meaning (C08_escape, C08_glob, four shape corollaries). (b) every directory tree, exclusion predicate abstract: the modules of a scan are exactly the files/directories "
-             "none of whose ancestors-or-self down from module_path is excluded, and only those files are parsed (C08_scan_modules, C08_scan_files); C08_from_import_refuted: kernel-checked witness of known finding K2. "
+             "none of whose ancestors-or-self down from module_path is excluded, and only those files are parsed (C08_scan_modules, C08_scan_files, C08_scan_files_exact); every import of the filtered scan into a remaining module is an import of the unfiltered scan between remaining modules and conversely "
+             "(C08_scan_imports, under: externals excluded, module_path not excluded, no 'from P import n' of an excluded sub module of a remaining P, absolute names fully qualified only); C08_from_import_refuted: kernel-checked witness that the third hypothesis cannot be dropped (known finding K2). "
              "Tie to /repo: (a) exhaustive over a small alphabet (converter output string; real FileFilter vs model matcher incl. newline; four-case oracle on the real code); (b) random trees x exclusion tuples built from the tree's own paths "
              "(glob shapes and regex translations, names with regex metacharacters): filtered vs unfiltered real scan, vs model with the oracle from the real re.",
-        note="'Imports between remaining modules unchanged' has no general theorem (K2 shows it is false in one corner); it is checked on the real code with K2 instances matched as known finding. "
+        note="'Imports between remaining modules unchanged' is proved outside the K2 corner and the ambiguous-name corner (hypotheses k2free, unambR) and additionally checked on the real code with K2 instances matched as known finding. "
              "Trusted: Coq kernel, extraction (ExtrOcamlBasic) + driver, Python harness. Modelled not verified: CPython re on the emitted fragment (compared exhaustively up to the stated lengths).",
-        technique="Coq proof (induction on pattern/subject) + exhaustive model/implementation correspondence",
+        technique="Coq proof (induction on pattern/subject; rose-tree induction and import-resolution case analysis for the tree part) + exhaustive model/implementation correspondence",
         design="5/C08"),
 }
 
